@@ -346,39 +346,26 @@ func joinWithRange(t, t2 *Table) {
 	}
 	sortTablesData(t, t2, sbs)
 
-	// Create the comparison for row order.
-	scfg := make(SortConfig, 0, len(sbs))
-	for _, k := range sbs {
-		scfg = append(scfg, sortConfig{Binding: k})
-	}
-
 	t.mu.Lock()
 	defer t.mu.Unlock()
 	t2.mu.Lock()
 	defer t2.mu.Unlock()
+	// The sort above treats cells of different kinds as equal, so when a shared
+	// binding holds nodes, predicates and literals the rows are not in a total
+	// order and a merge of the two ranges would skip matches. Compare every
+	// right row with every left row instead.
 	var res []Row
-	t2d := t2.Data
-	lj, j := 0, 0
 	for _, t1r := range t.Data {
 		extended := false
-		for j < len(t2d) && (joinable(t1r, t2d[j], ibs) || rowLess(t2d[j], t1r, scfg)) {
-			if joinable(t1r, t2d[j], ibs) {
-				res = append(res, extendRowWith(t1r, t2d[j]))
+		for _, t2r := range t2.Data {
+			if joinable(t1r, t2r, ibs) {
+				res = append(res, extendRowWith(t1r, t2r))
 				extended = true
-				j++
-				continue
-			}
-			// Advante the row index for the right table while the rows are
-			// smaller than the current one.
-			for j < len(t2d) && rowLess(t2d[j], t1r, scfg) {
-				j++
-				lj = j
 			}
 		}
 		if !extended {
 			res = append(res, extendRow(t1r, ubs))
 		}
-		j = lj
 	}
 
 	// Update the table.
